@@ -6,8 +6,72 @@ import msg_stream
 BOTH_BACKENDS = True
 
 
+def lazy_tables_probe(ctx):
+    """AuxData tables are decoded lazily: a UUID entry is resolved against the
+    loaded IR as it is when the table is first read (an attached node -> that
+    very object; anything else -> a plain UUID), table by table."""
+    import io
+    import uuid as uuidlib
+    import gtirb
+    import core
+    rng = ctx.rng
+    for _ in range(ctx.scale(20, 200)):
+        ir = gtirb.IR()
+        m = gtirb.Module(name="m", ir=ir)
+        px = [gtirb.ProxyBlock(module=m) for _ in range(3)]
+        level = rng.choice([ir, m])
+        tables = ["a", "b", "c"]
+        for t in tables:
+            level.aux_data[t] = gtirb.AuxData(
+                [p for p in px], "sequence<UUID>")
+        buf = io.BytesIO()
+        ir.save_protobuf_file(buf)
+        buf.seek(0)
+        try:
+            with core.time_limit(30):
+                ir2 = gtirb.IR.load_protobuf_file(buf)
+                m2 = ir2.modules[0]
+                lv = ir2 if level is ir else m2
+                by_uuid = {p.uuid: p for p in m2.proxies}
+                obs = []
+                first = list(lv.aux_data["a"].data)
+                obs.append(("a", first))
+                gone = by_uuid[px[1].uuid]
+                gone.module = None                 # detached before "b" is read
+                obs.append(("b", list(lv.aux_data["b"].data)))
+                gone.module = m2
+                obs.append(("c", list(lv.aux_data["c"].data)))
+        except (Exception, core.ImplTimeout) as e:   # noqa
+            ctx.report({"kind": "lazy-table-raises"},
+                       {"exception": type(e).__name__},
+                       "reading lazily decoded tables raised %s"
+                       % type(e).__name__)
+            return
+        ctx.evaluations += 3
+        ctx.count("lazy-tables-probe")
+        ctx.nontriv(("lazy-tables", type(level).__name__))
+        want_b = [by_uuid[px[0].uuid], px[1].uuid, by_uuid[px[2].uuid]]
+        ok = (all(x is by_uuid[p.uuid] for x, p in zip(obs[0][1], px))
+              and len(obs[1][1]) == 3
+              and all((g is w) if not isinstance(w, uuidlib.UUID)
+                      else (type(g) is uuidlib.UUID and g == w)
+                      for g, w in zip(obs[1][1], want_b))
+              and all(x is by_uuid[p.uuid] for x, p in zip(obs[2][1], px)))
+        if not ok:
+            ctx.report({"kind": "lazy-table-resolution"},
+                       {"observed": [(k, [type(x).__name__ for x in v])
+                                     for k, v in obs]},
+                       "UUID entries of lazily decoded tables were not "
+                       "resolved against the IR as it was when each table "
+                       "was read: %s" % [(k, [type(x).__name__ for x in v])
+                                        for k, v in obs])
+            return
+
+
 def run(ctx):
     msg_stream.run(ctx, {"C09"}, ctx.scale(150, 3000))
+    if not ctx.violations:
+        lazy_tables_probe(ctx)
     fault_stream.run(ctx)
 
 
